@@ -24,7 +24,7 @@ def gen(rng, tier):
         accs = []
         for j in range(k):
             r = rng.random()
-            eid = 0 if r < 0.6 else rng.choice([1, 2, 3, 7, 50, 1000, 2 ** 40])
+            eid = 0 if r < 0.6 else rng.choice([1, 2, 3, 7, 50, 1000, 2 ** 40, 2 ** 63, 2 ** 64 - 1, 2 ** 64 - 1])
             ss = []
             for q in range(rng.randrange(0, 6)):
                 s = rng.choice(svcs)
